@@ -2,6 +2,7 @@ import PsV.Proofs.Lanes
 import PsV.Proofs.Bridge
 import PsV.Proofs.PolyDeriv
 import PsV.Proofs.PolyDerivK
+import PsV.Proofs.RoundingDerivEval
 /-!
 # C02 — derivative and gradient evaluations (first part: structural facts)
 
@@ -17,6 +18,27 @@ import PsV.Proofs.PolyDerivK
   That this formula is the derivative of the polynomial piece is `C02_formula_is_derivative` (below,
   when present); arbitrary-order derivatives (`derivK`, the recursive routine) are tied by the
   exact-rational oracle and the bit-exact run only.
+
+**Rounding** (section `rounding`, last part of this file).  Derivative basis values are *differences*
+`n·B_{i,n-1}/(t_{i+n}−t_i) − n·B_{i+1,n-1}/(t_{i+n+1}−t_{i+1})`, so the error of a rounded evaluation cannot be
+proportional to the derivative itself; it is proportional to the **majorant** `ndsplineevalAbs ⟨dims, |coef|⟩ x c mask`
+= `Σ |coef| · Π_d (B_d or Babs_d)`, the code's own formula with the subtraction of the two terms (and the negation in
+slot 0) replaced by addition (`PsV.Model.DerivAbs`; `Babs_i = n(B_{i,n-1}/(t_{i+n}−t_i) + B_{i+1,n-1}/(t_{i+n+1}−t_{i+1}))`).
+* `C02_deriv_basis_rounding_envelope`: every slot of `bspline_deriv_nonzero` run with any roundings of relative error `ε`
+  is within `((1+ε)^(7·order) − 1)·Babs` of the exact slot;
+* `C02_rounding_envelope_partial`: `|ndsplineeval@rounded − ndsplineeval@exact| ≤ ((1+ε)^K − 1)·majorant` for **every bitmask**,
+  `K = 3 + ndim(7·maxorder+3) + 2·Π(order_d+1)` — the constant of plain evaluation (C01): a derivative row costs `7·order`
+  roundings per entry, a value row `7·order + 1`;
+* `C02_rounded_deriv_near_spec_partial`: the same against the specification (true derivative, by `C02_mask_eval_eq_spec_partial`
+  and `C02_formula_is_derivative`);
+* `C02_gradient_rounding_envelope`: every lane of `ndsplineeval_gradient`; `C02_deriv_orders_rounding_envelope_partial`:
+  `ndsplineeval_deriv` with all orders ≤ 1;
+* `C02_majorant_dominates`, `C02_majorant_mask_zero`, and a concrete evaluation in which majorant = |derivative|: the
+  majorant is a genuine, attainable bound.
+Partial: restricted by `AllInterior` to points inside a non-empty knot interval of the fully supported range
+(`order ≤ c`, `c+order+2 ≤ nknots`, `knots[c] ≤ x ≤ knots[c+1]`); the partially supported margins (where the recurrences
+also produce discarded entries from the padding, handled for values in `Proofs/RoundingMargin.lean`) are not redone for the
+derivative combination; arbitrary-order derivatives (`derivK`) and underflow/overflow stay with the measured envelope.
 -/
 namespace PsV
 variable {α : Type} [A : Arith α]
@@ -64,10 +86,7 @@ theorem C02_gradient_rows : ∀ (ds : List (Dim α)) (xs : List α) (cs : List N
           rw [this]
 
 
-/-- derivative bitmask a gradient lane corresponds to: lane 0 = value, lane `1+d` = `1<<d` -/
-def laneMask : Nat → Nat
-  | 0 => 0
-  | l+1 => 2 ^ l
+-- `laneMask` (derivative bitmask of a gradient lane: lane 0 = value, lane `1+d` = `1<<d`) is defined in `PsV.Model.DerivAbs`
 
 /-- **Every gradient lane is the corresponding scalar evaluation, operation for operation** — for
 every arithmetic (so bit for bit in IEEE): `ndsplineeval_gradient` returns
@@ -155,5 +174,196 @@ theorem C02_formula_is_iterated_derivative (t : Int → β) (x : β) (nknots : N
   rw [Dind_eq_DkBp t x nknots l ind hind k n i h0 h1, iterate_derivative_Pp t x l k n i hmono]
 
 end field
+
+end PsV
+
+namespace PsV
+section rounding
+variable {F : Type} [Field F] [LinearOrder F] [IsStrictOrderedRing F] {ε : F} {fl st : F → F}
+
+/-- **Forward error of `bspline_deriv_nonzero`** (one dimension, point inside a knot interval of the fully
+supported range): the three rows — absolute (`Babs`), exact, rounded — have `order+1` slots, and in every slot
+`|rounded − exact| ≤ ((1+ε)^(7·order) − 1)·Babs` and `|exact| ≤ Babs`. -/
+theorem C02_deriv_basis_rounding_envelope (hε : 0 ≤ ε) (hfl : ∀ a, RelErr ε 1 a (fl a)) (hst : ∀ a, RelErr ε 1 a (st a))
+    (d : Dim F) (x : F) (c : Nat) (hint : Interior d x c) :
+    (@bsplineDerivNonzeroAbs F (Arith.ofField F) d.knots d.nknots x c d.order).length = d.order + 1 ∧
+    (@bsplineDerivNonzero F (Arith.ofField F) d.knots d.nknots x c d.order).length = d.order + 1 ∧
+    (@bsplineDerivNonzero F (Arith.rounded fl st) d.knots d.nknots x c d.order).length = d.order + 1 ∧
+    ∀ (i : Nat) (m e r : F),
+      (@bsplineDerivNonzeroAbs F (Arith.ofField F) d.knots d.nknots x c d.order)[i]? = some m →
+      (@bsplineDerivNonzero F (Arith.ofField F) d.knots d.nknots x c d.order)[i]? = some e →
+      (@bsplineDerivNonzero F (Arith.rounded fl st) d.knots d.nknots x c d.order)[i]? = some r →
+      |r - e| ≤ gfac ε (7 * d.order) * m ∧ |e| ≤ m := by
+  obtain ⟨hrow, hlen⟩ := bsplineDerivNonzero_row3 hε hfl hst d x c hint
+  obtain ⟨l1, l2⟩ := hrow.length_eq
+  exact ⟨by rw [l1, hlen], hlen, by rw [l2, hlen], fun i m e r hm he hr => hrow.get i m e r hm he hr⟩
+
+/-- **Forward error bound for evaluation with a derivative bitmask** (model at rounded arithmetic vs the same model
+exact; any bitmask — single and mixed first derivatives, `mask = 0` is C01).
+
+Partial: the one restricting hypothesis is `hint : AllInterior T.dims xs cs` — every coordinate lies in the knot interval
+`[knots[c], knots[c+1]]` of its centre, that interval is not empty, the centre is fully supported (`order ≤ c`,
+`c + order + 2 ≤ nknots`) and the knots the recurrences touch are non-decreasing.  The full statement replaces it by the
+hypotheses of the exact theorem (`T.WF`, `AllNonDegenerate`, `searchCenters … = .ok cs`), i.e. it also covers the two
+partially supported margins and points of the supported range that sit exactly on `knots[naxes]`:
+```
+theorem C02_rounding_envelope_all … (hwf : T.WF) (hlen : T.dims.length = xs.length) (hnd : AllNonDegenerate T.dims xs)
+    (hs : searchCenters (T.dims.map Dim.axis) xs = .ok cs) (hn : ∀ d ∈ T.dims, d.order ≤ n) :
+    |ndsplineeval@rounded T xs cs mask − specEval T xs (maskModes T.dims.length mask)| ≤
+      gfac ε (3 + T.dims.length * (7 * n + 3) + 2 * blockSize T.dims) * ndsplineevalAbs ⟨T.dims, |coef|⟩ xs cs mask
+```
+Missing for it: the margin version of `derivCombine_row3` (in the margins `bsplvb` also fills slots of absent basis
+functions from the padding; they carry no bound and are discarded by `rearrange` — as done for values in
+`Proofs/RoundingMargin.lean`). -/
+theorem C02_rounding_envelope_partial (hε : 0 ≤ ε) (hfl : ∀ a, RelErr ε 1 a (fl a)) (hst : ∀ a, RelErr ε 1 a (st a))
+    (T : Table F) (xs : List F) (cs : List Nat) (n mask : Nat)
+    (hint : AllInterior T.dims xs cs) (hn : ∀ d ∈ T.dims, d.order ≤ n) :
+    |@ndsplineeval F (Arith.rounded fl st) T xs cs mask - @ndsplineeval F (Arith.ofField F) T xs cs mask| ≤
+      gfac ε (3 + T.dims.length * (7 * n + 3) + 2 * blockSize T.dims) *
+        @ndsplineevalAbs F (Arith.ofField F) ⟨T.dims, fun i => |T.coef i|⟩ xs cs mask :=
+  (ndsplineeval_mask_rounding hε hfl hst T xs cs n mask hint hn).1
+
+/-- the same for `ndsplineeval_deriv` when every requested derivative order is 0 or 1 (the routine then uses the same two
+basis routines; orders ≥ 2 go through the recursive `bspline_deriv` and are not covered) -/
+theorem C02_deriv_orders_rounding_envelope_partial (hε : 0 ≤ ε) (hfl : ∀ a, RelErr ε 1 a (fl a)) (hst : ∀ a, RelErr ε 1 a (st a))
+    (T : Table F) (xs : List F) (cs : List Nat) (n : Nat) (ks : List Nat)
+    (hint : AllInterior T.dims xs cs) (hn : ∀ d ∈ T.dims, d.order ≤ n)
+    (hkl : ks.length = T.dims.length) (hk1 : ∀ k ∈ ks, k ≤ 1) :
+    |@ndsplineevalDeriv F (Arith.rounded fl st) T xs cs ks - @ndsplineevalDeriv F (Arith.ofField F) T xs cs ks| ≤
+      gfac ε (3 + T.dims.length * (7 * n + 3) + 2 * blockSize T.dims) *
+        @evalModesAbs F (Arith.ofField F) ⟨T.dims, fun i => |T.coef i|⟩ xs cs (derivModes ks) :=
+  (evalModes_rounding hε hfl hst T xs cs n (derivModes ks) hint hn (by simp [derivModes, hkl]) (derivModes_mem ks hk1)).1
+
+/-- the majorant dominates the exact derivative (it is the sum of the magnitudes of the terms the derivative sums) -/
+theorem C02_majorant_dominates (T : Table F) (xs : List F) (cs : List Nat) (mask : Nat)
+    (hint : AllInterior T.dims xs cs) :
+    |@ndsplineeval F (Arith.ofField F) T xs cs mask| ≤
+      @ndsplineevalAbs F (Arith.ofField F) ⟨T.dims, fun i => |T.coef i|⟩ xs cs mask := by
+  have hid : ∀ a : F, RelErr (0 : F) 1 a (id a) := fun a => (RelErr.refl (le_refl (0 : F)) a).mono (le_refl _) (by omega)
+  obtain ⟨n, hn⟩ : ∃ n : Nat, ∀ d ∈ T.dims, d.order ≤ n :=
+    ⟨(T.dims.map Dim.order).sum, fun d hd => List.single_le_sum (fun _ _ => Nat.zero_le _) _ (List.mem_map_of_mem hd)⟩
+  exact (ndsplineeval_mask_rounding (le_refl (0 : F)) hid hid T xs cs n mask hint hn).2
+
+/-- with no derivative selected the majorant is plain evaluation (of whatever table it is applied to): the
+envelope of `C02_rounding_envelope_partial` at `mask = 0` is the envelope of `C01_rounding_envelope_partial` -/
+theorem C02_majorant_mask_zero {α : Type} [A : Arith α] (T : Table α) (xs : List α) (cs : List Nat) :
+    ndsplineevalAbs T xs cs 0 = ndsplineeval T xs cs 0 := by
+  unfold ndsplineevalAbs ndsplineeval evalModesAbs evalModes
+  rw [rowsAbs_value]
+  intro m hm
+  rw [maskModes_zero'] at hm
+  exact List.eq_of_mem_replicate hm
+
+/-- … and therefore against the specification (the true partial derivative of the tensor-product sum, one-sided
+convention of C01): rounded bitmask evaluation is within the envelope. -/
+theorem C02_rounded_deriv_near_spec_partial (hε : 0 ≤ ε) (hfl : ∀ a, RelErr ε 1 a (fl a)) (hst : ∀ a, RelErr ε 1 a (st a))
+    (T : Table F) (xs : List F) (cs : List Nat) (n mask : Nat) (hwf : T.WF)
+    (hlen : T.dims.length = xs.length) (hnd : AllNonDegenerate T.dims xs)
+    (hs : @searchCenters F (cmpLO F) (T.dims.map Dim.axis) xs = .ok cs)
+    (hint : AllInterior T.dims xs cs) (hn : ∀ d ∈ T.dims, d.order ≤ n) :
+    |@ndsplineeval F (Arith.rounded fl st) T xs cs mask
+        - @specEval F (Arith.ofField F) T xs (maskModes T.dims.length mask)| ≤
+      gfac ε (3 + T.dims.length * (7 * n + 3) + 2 * blockSize T.dims) *
+        @ndsplineevalAbs F (Arith.ofField F) ⟨T.dims, fun i => |T.coef i|⟩ xs cs mask := by
+  have h := C02_rounding_envelope_partial hε hfl hst T xs cs n mask hint hn
+  rw [C02_mask_eval_eq_spec_partial T xs cs mask hwf hlen hnd hs] at h
+  exact h
+
+/-- **Every lane of the value-plus-gradient evaluation** under rounding: `ndsplineeval_gradient` returns `ndim+1` lanes
+in both arithmetics, and lane `l` (0 = value, `1+d` = derivative along `d`) is within the envelope with the majorant of
+the bitmask `laneMask l`.  (The lanes perform the scalar evaluation's operations in every arithmetic,
+`C02_gradient_eq_mask_evals`, so the bound transfers without a second analysis.) -/
+theorem C02_gradient_rounding_envelope (hε : 0 ≤ ε) (hfl : ∀ a, RelErr ε 1 a (fl a)) (hst : ∀ a, RelErr ε 1 a (st a))
+    (maxDim : Nat) (T : Table F) (xs : List F) (cs : List Nat) (n : Nat)
+    (hint : AllInterior T.dims xs cs) (hn : ∀ d ∈ T.dims, d.order ≤ n)
+    (hord : ∀ d ∈ T.dims, d.order ≠ 0) (hdim : T.dims.length + 1 ≤ maxDim) :
+    ∃ gR gE : List F,
+      @ndsplineevalGradient F (Arith.rounded fl st) maxDim T xs cs = some gR ∧
+      @ndsplineevalGradient F (Arith.ofField F) maxDim T xs cs = some gE ∧
+      gR.length = T.dims.length + 1 ∧ gE.length = T.dims.length + 1 ∧
+      ∀ (lane : Nat) (vR vE : F), gR[lane]? = some vR → gE[lane]? = some vE →
+        |vR - vE| ≤ gfac ε (3 + T.dims.length * (7 * n + 3) + 2 * blockSize T.dims) *
+          @ndsplineevalAbs F (Arith.ofField F) ⟨T.dims, fun i => |T.coef i|⟩ xs cs (laneMask lane) := by
+  refine ⟨_, _, @C02_gradient_eq_mask_evals F (Arith.rounded fl st) maxDim T xs cs hord hdim,
+    @C02_gradient_eq_mask_evals F (Arith.ofField F) maxDim T xs cs hord hdim, by simp, by simp, ?_⟩
+  intro lane vR vE hR hE
+  simp only [List.getElem?_map, Option.map_eq_some_iff] at hR hE
+  obtain ⟨l1, h1, rfl⟩ := hR
+  obtain ⟨l2, h2, rfl⟩ := hE
+  have e1 : l1 = lane := by
+    by_cases hl : lane < T.dims.length + 1
+    · rw [List.getElem?_range hl] at h1; exact (Option.some.inj h1).symm
+    · rw [List.getElem?_eq_none (by simpa using hl)] at h1; cases h1
+  have e2 : l2 = lane := by
+    by_cases hl : lane < T.dims.length + 1
+    · rw [List.getElem?_range hl] at h2; exact (Option.some.inj h2).symm
+    · rw [List.getElem?_eq_none (by simpa using hl)] at h2; cases h2
+  subst e1; subst e2
+  exact C02_rounding_envelope_partial hε hfl hst T xs cs n _ hint hn
+
+end rounding
+
+/-- 2-d table for the non-vacuity examples: orders 2 and 1, knots 0..6 and 0..4, strides 3 and 1, coefficients of both signs -/
+def c02ExDims : List (Dim Rat) := [⟨2, 7, 4, 3, fun i => (i : Rat)⟩, ⟨1, 5, 3, 1, fun i => (i : Rat)⟩]
+def c02ExTable : Table Rat := ⟨c02ExDims, fun i => (i : Rat) - 5⟩
+
+/-- hypotheses of `C02_rounding_envelope_partial` / `C02_deriv_basis_rounding_envelope` (and the rounding part of the other two):
+roundings (`fl = st = id`, `ε = 1/8`; any `ε ≥ 0` works), an interior point of the 2-d table, the order bound -/
+example : (∀ a : Rat, RelErr (1/8 : Rat) 1 a (id a)) ∧
+    AllInterior c02ExTable.dims [(7/2 : Rat), 3/2] [3, 1] ∧ (∀ d ∈ c02ExTable.dims, d.order ≤ 2) ∧
+    Interior (⟨2, 7, 4, 3, fun i => (i : Rat)⟩ : Dim Rat) (7/2) 3 := by
+  have h1 : Interior (⟨2, 7, 4, 3, fun i => (i : Rat)⟩ : Dim Rat) (7/2) 3 :=
+    ⟨by decide, by decide, by norm_num, by norm_num, by norm_num,
+      fun a b _ hab _ => by show ((a:Int):Rat) ≤ ((b:Int):Rat); exact_mod_cast hab⟩
+  have h2 : Interior (⟨1, 5, 3, 1, fun i => (i : Rat)⟩ : Dim Rat) (3/2) 1 :=
+    ⟨by decide, by decide, by norm_num, by norm_num, by norm_num,
+      fun a b _ hab _ => by show ((a:Int):Rat) ≤ ((b:Int):Rat); exact_mod_cast hab⟩
+  refine ⟨fun a => (RelErr.refl (by norm_num) a).mono (by norm_num) (by omega), ⟨h1, h2, trivial⟩, ?_, h1⟩
+  intro d hd
+  simp only [c02ExTable, c02ExDims, List.mem_cons, List.not_mem_nil, or_false] at hd
+  rcases hd with rfl | rfl <;> decide
+
+/-- remaining hypotheses of `C02_rounded_deriv_near_spec_partial` at the same point -/
+example : c02ExTable.WF ∧ c02ExTable.dims.length = [(7/2 : Rat), 3/2].length ∧
+    AllNonDegenerate c02ExTable.dims [(7/2 : Rat), 3/2] ∧
+    @searchCenters Rat (cmpLO Rat) (c02ExTable.dims.map Dim.axis) [(7/2 : Rat), 3/2] = .ok [3, 1] := by
+  refine ⟨⟨?_, rfl⟩, rfl, ?_, ?_⟩
+  · intro d hd
+    simp only [c02ExTable, c02ExDims, List.mem_cons, List.not_mem_nil, or_false] at hd
+    rcases hd with rfl | rfl
+    · exact ⟨by decide, rfl, fun i j _ hij _ => by show ((i:Int):Rat) ≤ ((j:Int):Rat); exact_mod_cast hij⟩
+    · exact ⟨by decide, rfl, fun i j _ hij _ => by show ((i:Int):Rat) ≤ ((j:Int):Rat); exact_mod_cast hij⟩
+  · exact ⟨Or.inl (by norm_num), Or.inl (by norm_num), trivial⟩
+  · simp [searchCenters, searchAxis, c02ExTable, c02ExDims, Dim.axis, bsearch, Cmp.lt, Cmp.le]
+    norm_num
+
+/-- remaining hypotheses of `C02_gradient_rounding_envelope` and of `C02_deriv_orders_rounding_envelope_partial` (orders `[1, 0]`) -/
+example : (∀ d ∈ c02ExTable.dims, d.order ≠ 0) ∧ c02ExTable.dims.length + 1 ≤ maxDimDefault ∧
+    ([1, 0] : List Nat).length = c02ExTable.dims.length ∧ (∀ k ∈ ([1, 0] : List Nat), k ≤ 1) := by
+  refine ⟨?_, by decide, rfl, by decide⟩
+  intro d hd
+  simp only [c02ExTable, c02ExDims, List.mem_cons, List.not_mem_nil, or_false] at hd
+  rcases hd with rfl | rfl <;> decide
+
+/-- the majorant is a concrete finite number where the derivative cancels completely: mixed partial d²/dx dy of the 2-d
+table (coefficients linear in the position) at (7/2, 3/2) is 0, the majorant 9 — the envelope cannot be proportional
+to the derivative itself -/
+example : @ndsplineeval Rat (Arith.ofField Rat) c02ExTable [7/2, 3/2] [3, 1] 3 = 0 ∧
+    @ndsplineevalAbs Rat (Arith.ofField Rat) ⟨c02ExTable.dims, fun i => |c02ExTable.coef i|⟩ [7/2, 3/2] [3, 1] 3 = 9 := by
+  constructor
+  · norm_num [ndsplineeval, evalModes, c02ExTable, c02ExDims, maskModes, rows, localRow, bsplineDerivNonzero, marginShift, shiftUp, shiftDown, (by decide : Nat.testBit 3 0 = true), (by decide : Nat.testBit 3 1 = true),
+      bsplvb, vbLevels, vbStep, rearrange, derivCombine, derivMid, walk, walkRow, walkLast, startPos, List.range, List.range.loop]
+  · norm_num [ndsplineevalAbs, evalModesAbs, c02ExTable, c02ExDims, maskModes, rowsAbs, localRowAbs, bsplineDerivNonzeroAbs, marginShift, shiftUp, shiftDown, (by decide : Nat.testBit 3 0 = true), (by decide : Nat.testBit 3 1 = true),
+      bsplvb, vbLevels, vbStep, rearrange, derivCombineAbs, derivMidAbs, walk, walkRow, walkLast, startPos, List.range, List.range.loop]
+
+/-- … and it is attained: for the 1-d table of order 2 on knots 0..6 with coefficients `i − 2` (the spline `x ↦ x − 5/2 + …`
+of slope 1) the derivative at 7/2 is 1 and the majorant is 1 — all terms of the derivative sum have one sign. -/
+example : @ndsplineeval Rat (Arith.ofField Rat) ⟨[⟨2, 7, 4, 1, fun i => (i : Rat)⟩], fun i => (i : Rat) - 2⟩ [7/2] [3] 1 = 1 ∧
+    @ndsplineevalAbs Rat (Arith.ofField Rat) ⟨[⟨2, 7, 4, 1, fun i => (i : Rat)⟩], fun i => |(i : Rat) - 2|⟩ [7/2] [3] 1 = 1 := by
+  constructor
+  · norm_num [ndsplineeval, evalModes, maskModes, rows, localRow, bsplineDerivNonzero, marginShift, shiftUp,
+      bsplvb, vbLevels, vbStep, rearrange, derivCombine, derivMid, walk, walkLast, startPos, List.range, List.range.loop]
+  · norm_num [ndsplineevalAbs, evalModesAbs, maskModes, rowsAbs, localRowAbs, bsplineDerivNonzeroAbs, marginShift, shiftUp,
+      bsplvb, vbLevels, vbStep, rearrange, derivCombineAbs, derivMidAbs, walk, walkLast, startPos, List.range, List.range.loop]
 
 end PsV
